@@ -228,6 +228,59 @@ Definition oracle_turns (sc : scase) (log : list ev) : bool :=
 Definition oracle_early_end (sc : scase) (log : list ev) : bool :=
   match turns log with _ :: ts => early_end_ok (client_frames sc) ts | [] => true end.
 
+(* the same rule as one left-to-right scan next to the client's frames (the form proven of the model for every
+   configuration, COPY handlers included): when the server closes the connection while frames are still to come,
+   the message it handled last is a Terminate or one it could not read *)
+Record emon := { e_rem : list frame; e_cur : option frame; e_ok : bool }.
+Definition end_reason (c : option frame) : bool :=
+  match c with Some f => Byte.eqb (frame_type f) x58 || negb (wf_client f) | None => true end.
+Definition emon_step (m : emon) (e : ev) : emon :=
+  match e with
+  | Consume =>
+      match e_rem m with
+      | f :: r => {| e_rem := r; e_cur := Some f; e_ok := e_ok m |}
+      | [] => {| e_rem := []; e_cur := e_cur m; e_ok := e_ok m |}
+      end
+  | Closed =>
+      {| e_rem := e_rem m; e_cur := e_cur m;
+         e_ok := e_ok m && (match e_rem m with [] => true | _ => end_reason (e_cur m) end) |}
+  | _ => m
+  end.
+Definition oracle_early_scan (sc : scase) (log : list ev) : bool :=
+  e_ok (fold_left emon_step log {| e_rem := client_frames sc; e_cur := None; e_ok := true |}).
+
+(* the parse function is handed only, in order and each at most once, query texts of complete Query / Parse
+   messages the client sent within the limit (nothing out of a skipped, truncated or malformed message): the texts
+   seen are a subsequence of the texts sent — one scan, no turn markers needed *)
+Definition query_of (f : frame) : option bytes :=
+  match f with
+  | FMsg t body =>
+      if Byte.eqb t x51 then match take_cstr body with Some (q, _) => Some q | None => None end
+      else if Byte.eqb t x50 then
+        match take_cstr body with
+        | Some (_, l1) => match take_cstr l1 with
+                          | Some (q, l2) => match p_u16 l2 with Some _ => Some q | None => None end
+                          | None => None end
+        | None => None end
+      else None
+  | _ => None
+  end.
+Fixpoint match_query (q : bytes) (fs : list frame) : option (list frame) :=
+  match fs with
+  | [] => None
+  | f :: r => match query_of f with
+              | Some q' => if bytes_eqb q q' then Some r else match_query q r
+              | None => match_query q r
+              end
+  end.
+Definition pb_step (st : option (list frame)) (e : ev) : option (list frame) :=
+  match st, e with
+  | Some fs, CbParse q => match_query q fs
+  | _, _ => st
+  end.
+Definition oracle_parse_budget (sc : scase) (log : list ev) : bool :=
+  match fold_left pb_step log (Some (client_frames sc)) with Some _ => true | None => false end.
+
 (* ---------- C05: the inside of a simple-query cycle ---------- *)
 Record qstate := { q_err : bool; q_exec : bool; q_rows : Z; q_closed : bool;
                    q_pend : Z (* 0 none, 1 DataRow, 2 Complete, 3 CopyIn *); q_ok : bool }.
